@@ -419,7 +419,14 @@ func allDirected(verifDir string, m core.Monitor) []core.Directed {
 	d := append([]core.Directed(nil), m.Directed()...)
 	for _, kf := range loadKnown(verifDir) {
 		if kf.hasProperty(m.ID()) && kf.Witness != nil {
-			d = append(d, core.Directed{Input: kf.Witness, Note: kf.Status + " finding " + kf.ID + ": " + kf.What})
+			in := kf.Witness
+			if m.ID() == "C06" {
+				if kf.Expect == nil {
+					continue // C06 judges a witness only against its expected HTML
+				}
+				in = []byte(string(kf.Witness) + "\x00EXPECT\x00" + string(kf.Expect))
+			}
+			d = append(d, core.Directed{Input: in, Note: kf.Status + " finding " + kf.ID + ": " + kf.What})
 		}
 	}
 	return d
